@@ -43,6 +43,16 @@ def run_gen(job):
     return fp(canon_scenario(scn))
 
 
+def run_bench(job):
+    """a generated benchmark requested WITHOUT a seed after seeding numpy's global generator; with `prior` the same
+    benchmark was first requested with an explicit seed (and thrown away) - that must not matter"""
+    import nasim.scenarios as S
+    if job.get("prior") is not None:
+        S.make_benchmark_scenario(job["name"], seed=job["prior"])
+    np.random.seed(job["seed"])
+    return fp(canon_scenario(S.make_benchmark_scenario(job["name"])))
+
+
 def run_traj(job):
     if job.get("_env") is not None:
         return _traj(job, job["_env"])
@@ -100,7 +110,7 @@ def main():
     for j in jobs:
         for rep in range(j.get("repeat", 1)):
             try:
-                f = run_gen(j) if j["kind"] == "gen" else run_traj(j)
+                f = run_gen(j) if j["kind"] == "gen" else run_bench(j) if j["kind"] == "bench" else run_traj(j)
             except Exception as ex:          # noqa
                 f = "raised:%s" % type(ex).__name__
             out.append(dict(key=j["key"], fp=f, rep=rep))
